@@ -41,7 +41,7 @@ EXPLANATION = ("Exhaustive sub-space (both tiers): every labelled graph up to is
                "Everything else is seeded random / "
                "corpus sampling.  Theorems (coq/props/C11.v, all closed under the global context): C11_vocabulary, C11_aut_count, C11_aut_group, "
                "C11_vf2_contract, C11_vf2_contract_items, C11_orbits_exact, C11_orbits_partition, C11_components, C11_anchors, C11_object_state, C11_wl_never_splits, C11_wfb_sound, "
-               "C11_dedup_sublist, C11_dedup_first_of_class, C11_partial_prune, C11_partial_prune_hosts, C11_prune_complete, C11_rep_ok, C11_prune_complete_aut, C11_prune_same_results.")
+               "C11_dedup_sublist, C11_dedup_first_of_class, C11_partial_prune, C11_partial_prune_hosts, C11_prune_complete, C11_rep_ok, C11_prune_complete_aut, C11_prune_first_of_class, C11_prune_same_results.")
 TRUSTED_BASE = [
     "Coq 8.16.1 kernel + vm_compute (no native_compute)",
     "hand-written model coq/model/C11_Model.v tied to synkit/Graph/Matcher/{automorphism,auto_est,dedup_matches}.py and the pruning call of "
@@ -70,12 +70,14 @@ LEVEL_TEXT = ("Machine-checked proof (Coq, all inputs) over an executable model 
               "documents); the reported orbits partition the nodes and two nodes share one IFF a listed automorphism maps one to the other (for a "
               "disconnected graph: an automorphism of their common component; the components are proved to be the connectivity classes); WL-1 colours after any number of rounds are preserved by every automorphism, so an "
               "estimated orbit never splits a true orbit; both de-duplicators and the pruning return a subsequence of their input; every pruned-away "
-              "match differs from a kept match by a rule automorphism, so any result function invariant under rule automorphisms has the same image "
-              "with and without pruning.  The model is tied to the code by a per-run correspondence on exhaustive small scopes, random graphs, "
+              "match differs from a kept match by a rule automorphism and a match is kept iff no earlier one does (exactly the earliest of every "
+              "class), so any result function invariant under rule automorphisms has the same image with and without pruning; "
+              "deduplicate_matches_with_anchor keeps exactly the first match of every signature class whatever host anchor is passed, "
+              "PartialMatcher's pruning is that function on the WL-1 host orbits; reused Automorphism / AutoEst objects are modelled as state "
+              "machines (lazy cache without invalidation, re-fit recomputes).  The model is tied to the code by a per-run correspondence on exhaustive small scopes, random graphs, "
               "symmetric families, engine-produced match lists and reactor applications.")
 LEVEL_NOTE = ("Trusted: Coq kernel + vm_compute; the model and encoders; VF2 = a duplicate-free listing of the automorphisms (monitored).  Invariance "
-              "of gluing under rule automorphisms is a named premise (C05), tested end-to-end here.  PartialMatcher's own host-orbit pruning is "
-              "outside the property.")
+              "of gluing under rule automorphisms is a named premise (C05), tested end-to-end here (also with partial=True).")
 
 N_CFG = 8
 WL_ATTRS4 = ["element", "charge", "aromatic", "hcount"]
